@@ -1,13 +1,19 @@
 """C10 — Well-formed GTK-Doc comment blocks are parsed exactly.
 
-Proof: lean/GIVerif/Props/C10.lean over lean/GIVerif/Model/AnnParse*.lean: round trip of the
+Proof: lean/GIVerif/Props/C10.lean over lean/GIVerif/Model/AnnParse/*.lean: round trip of the
 annotation tokenizer against the project's own writer, continuation over several lines
-(all well-formed annotation lists).  Tie: translators gen_pyclasses/gen_annvocab (vocabulary,
-regex shapes, CPython tables) + correspondence of (1) the tokenizer / option parsers / writer
-and (2) every line matcher with the real code.  The block level (state machine, layouts, writer)
-is VALIDATED here by oracles written from the statement, run on the real
-GtkDocCommentBlockParser / GtkDocCommentBlockWriter: every layout of every generated block
-model parses to exactly the model, all layouts agree, parse(write(parse(s))) == parse(s).
+(all well-formed annotation lists); line-ending and asterisk/indentation independence; and, for
+the block grammar fragment of Spec/BlockGrammar.lean, parse(render L b) = b for every layout L,
+layout independence and parse(write(parse s)) = parse s over the model of the block state
+machine (`parseBlock`) and of the writer (`writeBlock`).
+Tie: translators gen_pyclasses/gen_annvocab/gen_anncase (vocabulary, regex shapes, CPython
+tables, literals) + correspondence of (1) the tokenizer / option parsers / annotation writer,
+(2) every line matcher and (3) the whole block parser and block writer (block tree with '' vs
+None, positions, indentation; every diagnostic; written text) with the real code.
+Independently of the model, oracles written from the statement run on the real
+GtkDocCommentBlockParser / GtkDocCommentBlockWriter for the FULL grammar: every layout of every
+generated block model parses to exactly the model, all layouts agree,
+parse(write(parse(s))) == parse(s).
 """
 import json
 import os
@@ -278,15 +284,24 @@ def run(ctx):
         'corpus_cases': len(corpus),
         'xml_test_inputs': len(xml),
         'correspondence_disagreements': {'layer1': nd1, 'layer2': nd2, 'layer3': nd3},
-        'layers': {'1 tokenizer/options/writer of annotations': 'modelled, proved (C10_ann_roundtrip, '
-                   'C10_ann_continuation), corresponded',
-                   '2 line matchers': 'modelled, shape-pinned (C10_pattern_shapes), corresponded',
-                   '3 block state machine / layouts / block writer': 'validated on the real code by statement oracles'},
+        'layers': {'1 tokenizer/options/writer of annotations': 'modelled, proved (C10_ann_roundtrip_partial, '
+                   'C10_ann_continuation; empty option values: C10_ann_roundtrip_counterexample), corresponded',
+                   '2 line matchers': 'modelled, shape-pinned (C10_pattern_shapes), corresponded; C10_asterisk_strip, '
+                   'C10_indent_lines',
+                   '3 block state machine / layouts / block writer': 'modelled (parseBlock, writeBlock), corresponded on '
+                   'every block-level text; proved for the grammar fragment of Spec/BlockGrammar.lean '
+                   '(C10_line_endings, C10_parse_render_partial, C10_layout_indep_partial, C10_write_parse_partial; '
+                   'witnesses C10_write_parse_*_counterexample); the full grammar is validated on the real code by '
+                   'the statement oracles'},
         'exhaustive': False,
     })
     ctx.assumptions.extend([
-        'block-level statements (layout independence, parse/render, write/parse) are validated on the real parser, '
-        'not proved: the Lean model stops at the tokenizer and the line matchers',
+        'block-level statements (layout independence, parse/render, write/parse) are PROVED for the grammar fragment of '
+        'Spec/BlockGrammar.lean (symbol identifier, parameters with one-line descriptions, one description paragraph, '
+        'Returns:) and VALIDATED on the real parser for the full grammar (other identifier forms, multi-line '
+        'descriptions, Since/Deprecated/Stability, continuation lines inside a block)',
+        'validate() is not part of the block model (it only logs; its diagnostics are left out of the layer-3 comparison)',
+        'str.capitalize() is modelled for first characters that can reach it from the parser (Gen.titleDomain)',
         "well-formedness (Spec/AnnGrammar.lean): lower-case annotation names that are tokens, not 'in-out'/'attribute'; "
         'list options without "="; dict options key or key=value with distinct keys; distinct annotation names',
         'white space after the asterisk belongs to the description text (GTK-Doc keeps it), so it is part of the block '
